@@ -18,6 +18,7 @@ import (
 // globals of the build and core packages).
 func verifMulti(run verifRun) int {
 	initBuild(os.Args)
+	verifsim.SharedRepoLock = true
 	n := len(run.Multi)
 	codes := make([]int, n)
 	var wg sync.WaitGroup
